@@ -50,7 +50,7 @@ RULE = ('numbers: every integer of -512..511 (exhaustive, both tiers), boundary 
         'typed inputs: ints/floats/logicals/blank/error values/decimal texts. A case is one number or one '
         'text of one base with all its calls; distinct by (kind, base, value); non-trivial = everything but '
         'blank/empty inputs.')
-BUDGET = {'quick': 30, 'thorough': 240}
+BUDGET = {'quick': 25, 'thorough': 240}
 EXHAUSTIVE = {'quick': False, 'thorough': False}
 ASSUMPTIONS = [
     'the functions are reached as library calls wrapped like a formula wraps them; a ~1 % sample is tied '
@@ -62,7 +62,7 @@ ASSUMPTIONS = [
 
 # sampled work per tier (totals over all shards)
 SIZES = {
-    'quick': {'numbers': 60000, 'texts': 30000, 'illegal': 40000, 'floats': 6000,
+    'quick': {'numbers': 24000, 'texts': 12000, 'illegal': 16000, 'floats': 3000,
               'bin_illegal_len': 4, 'small': {8: 3, 16: 2}},
     'thorough': {'numbers': 800000, 'texts': 300000, 'illegal': 300000, 'floats': 50000,
                  'bin_illegal_len': 7, 'small': {8: 5, 16: 4}},
@@ -72,15 +72,15 @@ SIZES = {
 FLOORS = {
     'quick': {
         'exh:bin-range-numbers': 1024, 'exh:bin-texts': 4095, 'exh:small-texts': 584 + 272,
-        'round_trips': 60000, 'round_trips:negative': 25000, 'negative_renderings': 5000,
-        'places_calls': 200000, 'places:too-small->error': 100000, 'places:padded': 45000,
-        'compositions': 500000, 'numbers:oct:in-range': 5000, 'numbers:hex:in-range': 5000,
-        'numbers:oct:out-of-range': 1000, 'numbers:hex:out-of-range': 1000,
-        'legal_texts': 6000, 'legal_texts:negative': 1500,
-        'illegal_texts_len<=10': 7000, 'illegal:whitespace': 2500, 'illegal:underscore': 500,
-        'illegal:plus-sign': 500, 'illegal:minus-sign': 500, 'illegal:decimal-point': 500,
-        'illegal:radix-prefix': 1300, 'illegal:digit-outside-base': 1100, 'illegal:too-long': 2048,
-        'illegal:non-ascii-digit': 1000, 'typed_cases': 375, 'ties': 1500,
+        'round_trips': 28000, 'round_trips:negative': 10000, 'negative_renderings': 2100,
+        'places_calls': 85000, 'places:too-small->error': 48000, 'places:padded': 25000,
+        'compositions': 250000, 'numbers:oct:in-range': 2000, 'numbers:hex:in-range': 2000,
+        'numbers:oct:out-of-range': 400, 'numbers:hex:out-of-range': 400,
+        'legal_texts': 6000, 'legal_texts:negative': 700,
+        'illegal_texts_len<=10': 3500, 'illegal:whitespace': 1100, 'illegal:underscore': 240,
+        'illegal:plus-sign': 240, 'illegal:minus-sign': 240, 'illegal:decimal-point': 240,
+        'illegal:radix-prefix': 600, 'illegal:digit-outside-base': 600, 'illegal:too-long': 2048,
+        'illegal:non-ascii-digit': 480, 'typed_cases': 375, 'ties': 650,
     },
     'thorough': {
         'exh:bin-range-numbers': 1024, 'exh:bin-texts': 4095, 'exh:small-texts': 37448 + 69904,
